@@ -140,6 +140,12 @@ Example ex_env_repaired :
   classify_fs (ex_fs_nb $"notes.py") (Some $"/w") [] [$"python3"; $"~/x.py"] = PAsk /\
   classify_fs (ex_fs_nb $"notes.py") (Some $"/w") [] [$"python3"; $"-X"; $"pycache_prefix=/c"; $"x.py"] = PAsk.
 Proof. vm_compute. repeat split. Qed.
+(* what the repaired test still cannot name (known finding C17-env-shadow-sysconfigdata): a loaded module whose
+   name is neither an identifier nor in sys.stdlib_module_names *)
+Example ex_env_residual :
+  classify_fs (ex_fs_nb $"_sysconfigdata__linux_x86_64-linux-gnu.py") (Some $"/w") [] [$"python3"; $"x.py"] = PAllow /\
+  module_named $"_sysconfigdata__linux_x86_64-linux-gnu.py" = false.
+Proof. vm_compute. split; reflexivity. Qed.
 Example ex_env_loop_and_missing :
   classify_fs (ex_fs false) (Some $"/w") [] [$"python3"; $"loop.py"] = PExn /\
   realpath (ex_fs false) $"/w/loop.py" = None /\
